@@ -14,7 +14,7 @@ LEVEL = ("Static agreement of the three element loops of every SIMD kernel (impl
          "summation-order error is not decided."
          " Added: the backend keeps no state between kernel calls (K9); a Math default inherited by CpuMath does no floating-point arithmetic of its own (K10); no unsafe code / inline assembly in math::* (K11)."
          " Added (round 5): outside the scale-update kernels no min / max / clamp / abs on an f64 in the CPU backend and math::util (K12)."
-         " Added (round 6): scalars cross the backend boundary unmodified (K13).")
+         " Added (round 6): scalars cross the backend boundary unmodified (K13); data-movement methods do no arithmetic and delegating methods do nothing but call their kernel (K14).")
 EXPLANATION = ("HIR of each with_simd body: provenance of slice pieces through S::as_simd_f64s / pulp::as_arrays, operand lists of the izip! loops, symbolic "
                "evaluation of the closure bodies (SIMD intrinsics translated to +,-,*) with per-lane renaming, comparison of normal forms.")
 TRUSTED = ["rustc nightly HIR (macro-expanded izip!)", "nutsfacts extractor", "rules/kernel.py, rules/c17.py",
@@ -750,6 +750,83 @@ def forwarded_scalars(F, R, rid="C17-K13"):
                           "to the kernel" % (i, p.split("::")[-1], vt_str(v)[:80]))
     R.floor(rid, 5)
 
+
+DATA_MOVEMENT = ("new_array", "new_eig_vectors", "new_eig_values", "read_from_slice", "write_to_slice", "copy_into", "fill_array", "eigs_as_array")
+
+
+def k14(F, R):
+    import json as _json
+    R.rule("C17-K14", "nothing is computed on the way in or out: (a) the data-movement methods of the CPU backend (%s) contain no floating-point arithmetic - what the "
+                      "caller hands over (eigenvectors, eigenvalues, a slice) is what the kernels later read; (b) a method that delegates to a math::util kernel does "
+                      "nothing else: one call of a K7-validated dispatch wrapper, no second kernel, no closure handed to Arch::dispatch, no f64 arithmetic of its "
+                      "own - the arithmetic of such a method is exactly the kernel K1-K6 model" % ", ".join(DATA_MOVEMENT))
+    adt = "cpu_math::CpuMath"
+    # (a)
+    n_a = 0
+    for b in sorted(F.hir_bodies(), key=lambda x: x.path):
+        if b.kind == "closure" or not b.hir or not (b.parent.get("self_adt") or "").startswith("math::cpu_math::CpuMath") or b.fn_name not in DATA_MOVEMENT:
+            continue
+        if not (b.parent.get("trait") and path_ends(b.parent["trait"], "math::Math")):
+            continue
+        n_a += 1
+        ops = []
+        for x in hir_walk(b.hir["value"]):
+            k = x.get("k")
+            lty = str((x.get("l") or {}).get("ty")) if isinstance(x.get("l"), dict) else ""
+            if k in ("Binary", "AssignOp") and ("f64" in str(x.get("ty")) or "f64" in lty):
+                ops.append("%s %s" % (k, x.get("op")))
+            if k == "MethodCall" and str(x.get("recv_ty")) in ("f64", "&f64", "&mut f64"):
+                ops.append("f64::%s" % x.get("method"))
+        key = "%s:data-movement" % b.path
+        site = "%s @%s" % (b.path, b.loc())
+        if ops:
+            R.bad("C17-K14", key, site, "%s computes on the data it stores (%s): the kernels no longer see the caller's values" % (b.fn_name, ", ".join(sorted(set(ops)))))
+        else:
+            R.ok("C17-K14", key, site, "no floating-point arithmetic")
+    if n_a < 8:
+        R.missing("C17-K14", "data-movement methods of CpuMath (found %d)" % n_a)
+    # (b)
+    wrappers = set()
+    for b in F.bodies.values():
+        if b.kind == "fn" and b.path.startswith("math::util::"):
+            for blk in b.blocks:
+                for st in blk["stmts"]:
+                    if st["k"] == "assign" and st["rv"]["k"] == "agg" and st["rv"].get("ak") == "adt" and st["rv"]["adt"].startswith("math::util::"):
+                        wrappers.add(strip_generics(b.path))
+    n_b = 0
+    for b in sorted(F.bodies.values(), key=lambda x: x.path):
+        if b.kind == "closure" or not b.parent.get("trait") or not path_ends(b.parent["trait"], "math::Math") or not path_ends(b.parent.get("self_adt") or "", adt):
+            continue
+        utils, closures, dispatch = [], [], 0
+        for bb, t in b.calls():
+            p = strip_generics(t["callee"].get("resolved") or t["callee"].get("path") or "")
+            if "math::util::" in p:
+                utils.append(p)
+            closures += list(t["callee"].get("closures") or [])
+            if p.endswith("Arch::dispatch"):
+                dispatch += 1
+        if not utils:
+            continue
+        n_b += 1
+        arith = sum(1 for blk in b.blocks if not blk["cleanup"] for st in blk["stmts"]
+                    if st["k"] == "assign" and st["rv"]["k"] == "bin" and "f64" in _json.dumps(st["rv"]))
+        why = []
+        if len(utils) != 1:
+            why.append("%d math::util calls (%s)" % (len(utils), ", ".join(u.split("::")[-1] for u in utils)))
+        why += ["calls %s, which is not a K7-validated dispatch wrapper" % u.split("::")[-1] for u in utils if u not in wrappers]
+        if dispatch or closures:
+            why.append("hands a closure to %s" % ("Arch::dispatch" if dispatch else "a call"))
+        if arith:
+            why.append("%d f64 operation(s) of its own" % arith)
+        key = "%s:delegation" % b.path
+        site = "%s @%s" % (b.path, b.loc())
+        if why:
+            R.bad("C17-K14", key, site, "%s delegates to a kernel but also computes: %s" % (b.fn_name, "; ".join(why)))
+        else:
+            R.ok("C17-K14", key, site, "one call of %s, nothing else" % utils[0].split("::")[-1])
+    if n_b < 10:
+        R.missing("C17-K14", "delegating methods of CpuMath (found %d)" % n_b)
+
 def run(F, R, config=None):
     R.rule("C17-K1", "each slice operand of a kernel is split exactly once by S::as_(mut_)simd_f64s and its head exactly once by pulp::as_arrays(_mut)::<4>")
     R.rule("C17-K2", "exactly three element loops (unrolled body, SIMD tail, scalar tail); each zips the corresponding piece of every operand exactly once")
@@ -769,6 +846,7 @@ def run(F, R, config=None):
     k11(F, R)
     k12(F, R)
     forwarded_scalars(F, R)
+    k14(F, R)
     R.floor("C17-K1", 25)
     R.floor("C17-K2", 40)
     R.floor("C17-K3", 40)
